@@ -241,6 +241,11 @@ func runC09(c *core.Ctx) {
 	ruleParseEntry(c)
 
 	// ------------------------------------------------------------ no crash
+	// a type answers from its own members: a table kept across calls in the signature package
+	// (types by input text, Go representations by struct name) hands out what was computed for
+	// another definition, or an object a caller has since renamed in place
+	c.Doc("C09.stateless", "meta/signature fills no package-level table outside its initialiser", 2)
+	rulePackageKeepsNoCache(c, "C09.stateless", "meta/signature")
 	c.Doc("C09.no-crash", "node builders: unchecked assertions only on terminals; parallel slices length-checked", 3)
 	n := ruleUncheckedAssertions(c, "C09.no-crash", "meta/signature", map[string]string{})
 	c.Pass("C09.no-crash", "unchecked-assertions", token.NoPos, fmt.Sprintf("%d unchecked assertions on parser nodes, all on scanner terminals", n))
